@@ -10,7 +10,7 @@
 From Coq Require Import List NArith ZArith Bool Permutation.
 From Gemato Require Import Py.PyStr Py.PyPath Py.PyTime Gen.Tables Model.Entry Model.Text Model.OpenPGP Model.Hash
   Model.FS Model.Verify Model.Loader Model.Update.
-From Gemato Require Import Proofs.SaveFrame Proofs.SortTheory.
+From Gemato Require Import Proofs.SaveFrame Proofs.SortTheory Proofs.RefreshIdem.
 Import ListNotations.
 Open Scope N_scope.
 
@@ -21,6 +21,14 @@ Theorem C12_nothing_queued_nothing_written :
   w' = w /\ l_updated l' = [] /\ l_loaded l' = l_loaded l.
 Proof. exact save_nothing_queued. Qed.
 Print Assumptions C12_nothing_queued_nothing_written.
+
+(* an entry that has just been refreshed is a fixed point of the refresh: on the same file state a second
+   update_entry_for_path reports "unchanged" and returns the same size and checksums *)
+Theorem C12_refresh_idempotent : forall (L : hashlib) w path t p a esize ecks hashes dev ch size' cks',
+  update_entry_for_path L w path (EFile t p a esize ecks) (Some hashes) dev None = Ok (ch, size', cks') ->
+  update_entry_for_path L w path (EFile t p a size' cks') (Some hashes) dev None = Ok (false, size', cks').
+Proof. exact refresh_idempotent. Qed.
+Print Assumptions C12_refresh_idempotent.
 
 Theorem C12_sorted_dump_canonical : forall (l1 l2 : list (N * entry)),
   Forall (fun ie => wfe (snd ie)) l1 -> Permutation l1 l2 ->
